@@ -70,7 +70,10 @@ def gen_case(rng, tier, index):
                         for _ in range(nblocks)],
              "align_pick": [rng.random() < 0.5 for _ in range(nblocks)],
              "isa": rng.choice(["x64", "arm64"]),
-             "in_module": rng.random() < 0.8}
+             "in_module": rng.random() < 0.8,
+             # an edit between split and join: one piece grows
+             "grow": rng.choice([None, None,
+                                 [rng.random(), rng.randrange(1, 6)]])}
         return c
     g = gen_rewrite.Gen(rng, tier)
     case = g.module()
@@ -303,6 +306,15 @@ def run_splitjoin(c):
                          "msg": str(k)})
     # --- join
     nop = nop_of(isa)
+    grow = c.get("grow") if snap_init == snap_size else None
+    if grow:
+        # what an edit does: the bytes of one piece grow (here: behind its
+        # blocks), everything behind it has to move and be re-aligned
+        gp = parts[int(grow[0] * len(parts)) % len(parts)]
+        gp.contents = bytes(gp.contents) + nop * grow[1]
+        gp.size = len(gp.contents)
+        return finish_grown(c, bi, parts, blocks, snap_blocks, alignment,
+                            tables, nop, viol, ctr)
     try:
         joined = join_byte_intervals(list(parts), nop, alignment, tables)
         outcome = "ok"
@@ -381,6 +393,64 @@ def run_splitjoin(c):
            f"{'addr' if addressed else 'noaddr'}:{len(c['exprs'])}e")
     return {"sig": sig if size or blocks else None, "violations": viol,
             "counters": ctr}
+
+
+def finish_grown(c, bi, parts, blocks, snap_blocks, alignment, tables, nop,
+                 viol, ctr):
+    from gtirb_rewriting.intervalutils import (PaddingError,
+                                               join_byte_intervals)
+    order_before = [blocks.index(b) for p in parts
+                    for b in sorted(p.blocks, key=lambda b: (b.offset,
+                                                             blocks.index(b)))]
+    try:
+        joined = join_byte_intervals(list(parts), nop, alignment, tables)
+    except PaddingError:
+        if len(nop) == 1:
+            viol.append({"key": "join:padding-error-with-1-byte-nop",
+                         "msg": "after growth"})
+        return {"sig": f"sj:{c['isa']}:grown:padding-error",
+                "violations": viol, "counters": ctr}
+    except Exception as exc:  # noqa
+        viol.append({"key": f"join:raises:{type(exc).__name__}:after-growth",
+                     "msg": repr(exc)[:300]})
+        return {"sig": None, "violations": viol, "counters": ctr}
+    ctr["split_join_roundtrips"] += 1
+    ctr["joins_after_growth"] = 1
+    base = c["address"] or 0
+    if joined is not bi:
+        viol.append({"key": "join:destination-not-first", "msg": "grown"})
+    for k, b in enumerate(blocks):
+        a, sz, data = snap_blocks[k]
+        if b.byte_interval is not joined or b.size != sz:
+            viol.append({"key": "join:block-not-kept:after-growth",
+                         "msg": str(k)})
+            continue
+        have = bytes(joined.contents[b.offset:b.offset + b.size])
+        if have != data:
+            viol.append({"key": "join:block-bytes-changed:after-growth",
+                         "msg": f"{k}: {have.hex()} != {data.hex()}"})
+    for i in range(len(order_before) - 1):
+        k1, k2 = order_before[i], order_before[i + 1]
+        if blocks[k1].offset > blocks[k2].offset:
+            viol.append({"key": "join:block-order-changed:after-growth",
+                         "msg": f"{k1} {k2}"})
+            break
+    nalign = 0
+    for b, a in (alignment or {}).items():
+        k = blocks.index(b)
+        if not snap_blocks[k][1]:
+            continue
+        nalign += 1
+        addr = base + b.offset
+        if addr % a:
+            viol.append({
+                "key": "join:alignment-lost:after-growth",
+                "msg": f"block {k} at {addr:#x} not {a}-aligned"})
+    ctr["alignment_checks_after_growth"] = nalign
+    shape = "o" if len({id(p) for p in parts}) < len(blocks) else ""
+    return {"sig": f"sj:{c['isa']}:grown:{len(blocks)}b:{shape}:"
+                   f"{len(alignment or {})}a:{c['tables']}",
+            "violations": viol, "counters": ctr}
 
 
 # ---------------------------------------------------------------- (c)
